@@ -19,3 +19,4 @@ open Bpmn.Props.C12 Bpmn.Props.EngineCurrent
 #print axioms Bpmn.Props.C12Steps.return_needs_empty_scope
 #print axioms Bpmn.Props.C12Steps.return_sub_once
 #print axioms Bpmn.Props.C12Steps.sub_programs_are_token_game
+#print axioms Bpmn.Props.C12Steps.return_when_scope_empty
